@@ -356,7 +356,13 @@ def close_block(out, recs, multi, lay, last, rng):
     if multi is None:
         return close_simple(out, lay, last, rng)
     out.append("----")
-    out.extend(multi)
+    # the text is returned trimmed: what is WRITTEN may carry blanks in front of its first line and behind its last one
+    raw = list(multi)
+    if raw and rng.random() < 0.3:
+        raw[0] = rng.choice(["  ", "\t", " \t", "\u3000", "    "]) + raw[0]
+    if raw and rng.random() < 0.3:
+        raw[-1] = raw[-1] + rng.choice(["  ", "\t", " \t", "\u00a0", "   "])
+    out.extend(raw)
     if last and not lay.plain:
         c = rng.random()
         if c < 0.3:
